@@ -31,6 +31,8 @@ def labels_for(ctx, spec):
             ctx.label("nested_overlap")
     if spec.get("shift"):
         ctx.label("shifted")
+    if k >= 8:
+        ctx.label("k>=8")
     if k >= 2 or spec["strand"] == "-" or len(bl) != k or rm.has_self_overlap(bl):
         ctx.nt()
 
@@ -367,7 +369,9 @@ def check_wrappers(spec, ctx):
 
 def strat_points(tier):
     big = tier == "thorough"
-    return S.location_spec(max_k=6 if big else 5, allow_overlap=True, allow_nested=True, max_len=12 if big else 8)
+    # one case in ten has many short blocks (8..14; mostly without self-overlap)
+    return st.one_of(*([S.location_spec(max_k=6 if big else 5, allow_overlap=True, allow_nested=True, max_len=12 if big else 8)] * 9
+                       + [st.booleans().flatmap(lambda ov: S.location_spec(min_k=8, max_k=14, allow_overlap=ov and False, max_len=3, max_gap=3))]))
 
 
 def strat_rel_interval(tier):
@@ -457,8 +461,8 @@ PROP = Prop(
     pid="C01",
     legs=[
         Leg("point_maps", check_points, strategy=strat_points, examples=EX, n_quick=2500, n_thorough=25000,
-            must_hit=["minus&k>=2", "empty_block", "adjacent", "overlap", "nested_overlap", "block_boundary_position", "shifted"],
-            rule="random staggered layouts (k<=5/6, empty/adjacent/overlapping blocks, shuffled constructor order, optional 2^31 shift) x both strands; every relative position and every parent position in span+-2"),
+            must_hit=["minus&k>=2", "empty_block", "adjacent", "overlap", "nested_overlap", "block_boundary_position", "shifted", "k>=8"],
+            rule="random staggered layouts (k<=5/6, one in ten with 8..14 short blocks; empty/adjacent/overlapping blocks, shuffled constructor order, optional 2^31 shift) x both strands; every relative position and every parent position in span+-2"),
         Leg("point_maps_coverage_guided", check_points, fuzz_of="point_maps", n_quick=300, n_thorough=12000, shards_quick=2, shards_thorough=8,
             rule="coverage-guided: the `point_maps` leg's strategy driven by atheris/libFuzzer through hypothesis.fuzz_one_input with the `inscripta` package instrumented (fresh empty corpus, budget in runs; same check, clauses and known-finding predicates; failures collected unshrunk)"),
         Leg("rel_interval", check_rel_interval, strategy=strat_rel_interval, examples=EX[:4], n_quick=600, n_thorough=4000,
